@@ -134,7 +134,7 @@ pub fn sets(ctx: &Ctx) -> Vec<CaseSet> {
 
     // all 576 P x compatible Q
     let tb1 = tb.clone();
-    let per_pair = ctx.size(100, 120);
+    let per_pair = ctx.size(100, 240);
     out.push(CaseSet::new(
         "all-printer-sets-x-compatible-parser-sets",
         N_P as u64,
@@ -157,7 +157,7 @@ pub fn sets(ctx: &Ctx) -> Vec<CaseSet> {
     let tb2 = tb.clone();
     out.push(CaseSet::new(
         "elisp-pair",
-        ctx.size(240_000, 1_600_000),
+        ctx.size(240_000, 5_000_000),
         Box::new(move |rep, rng, _| {
             let (p, q) = (P::elisp(), Q::elisp());
             let v = gen_for(rng, &tb2, &p, &q, 5);
@@ -167,7 +167,7 @@ pub fn sets(ctx: &Ctx) -> Vec<CaseSet> {
     let tb3 = tb.clone();
     out.push(CaseSet::new(
         "default-pair",
-        ctx.size(120_000, 1_200_000),
+        ctx.size(120_000, 4_000_000),
         Box::new(move |rep, rng, _| {
             let (p, q) = (P::default_(), Q::default_());
             let v = gen_for(rng, &tb3, &p, &q, 5);
@@ -212,7 +212,7 @@ pub fn sets(ctx: &Ctx) -> Vec<CaseSet> {
     let tbw = tb.clone();
     out.push(CaseSet::new(
         "wide-with-empties",
-        ctx.size(2_000, 20_000),
+        ctx.size(2_000, 100_000),
         Box::new(move |rep, rng, _| {
             let p = P::from_index(rng.below(N_P));
             let qs = compatible_qs(&p);
